@@ -312,7 +312,7 @@ theorem s_hopping (p : UInt8) (l : List UInt64) (len : UInt8) (hfit : len.toNat 
   apply SafeI_ite
   · intro _; exact SafeI_fail _
   · intro hlen
-    apply SafeI_bind _ (fun _ => SafeI_swrite _ _)
+    apply SafeI_bind (SafeI_swrite _ _); intro _
     apply SafeI_modH
     intro h hi
     refine ⟨hi.1, ?_⟩
